@@ -410,6 +410,36 @@ func GenSCCapacity(r *rand.Rand) SCHist {
 	return h
 }
 
+// GenSCDeep builds a committed chain longer than the link table (2 000 entries) and the walk-back limit: the key is written
+// at the first block and near the tip; lookups at the tip, just inside and just outside the limits.  Far lookups may
+// miss (capacity), none may answer with anything but the value of the closest writer.
+func GenSCDeep(r *rand.Rand) SCHist {
+	h := SCHist{Small: false, ValType: "mut"}
+	n := 2050 + r.Intn(100)
+	w2 := n - 3 - r.Intn(20)
+	for i := 1; i <= n; i++ {
+		b := fmt.Sprintf("b%d", i)
+		prev := "genesis"
+		if i > 1 {
+			prev = fmt.Sprintf("h%d", i-1)
+		}
+		h.Ops = append(h.Ops, SCOp{Op: "newblock", B: b, H: fmt.Sprintf("h%d", i), P: prev})
+		if i == 1 {
+			h.Ops = append(h.Ops, SCOp{Op: "bset", B: b, K: "k1", V: "a"})
+		}
+		if i == w2 {
+			h.Ops = append(h.Ops, SCOp{Op: "bset", B: b, K: "k1", V: "b"})
+		}
+		h.Ops = append(h.Ops, SCOp{Op: "bcommit", B: b})
+	}
+	for _, i := range []int{n, w2, w2 - 1, n - 1999, n - 2000, n - 2001, 40, 2, 1, w2 - 1, n} {
+		if i >= 1 {
+			h.Ops = append(h.Ops, SCOp{Op: "sget", H: fmt.Sprintf("h%d", i), K: "k1"})
+		}
+	}
+	return h
+}
+
 // GenSCCommitOrders enumerates the structured commit-order family: the block tree g <- A <- B <- C, A <- S, every
 // assignment of {nothing, write, removal} of one key to the four blocks (removals go through a transaction), every
 // order of the four commits, and after every commit a lookup at every block hash (state level and query cache).
